@@ -9,6 +9,7 @@ import Model.CoreClose
 import Model.Handshaker
 import Model.AcceptQ
 import Model.Inproc
+import Model.InprocPipe
 import Model.Proto.ReqClose
 import Model.Proto.RepClose
 import Model.Proto.CommonLemmas
@@ -652,5 +653,18 @@ example :
               .dial 1 102 5 17 16, .dial 2 103 6 17 16].foldl run Inproc.init
     s.bound.map (·.lid) = [1] ∧ s.conns = [(101, 100)] ∧ s.parked.map (·.call) = [102] ∧ s.closedL = [2] ∧
     ((Inproc.step s (.closeL 1)).headD (s, [])).2 = ["res:ok", "ret:102:refused"] := by decide
+
+/-- an inproc connection of which either end has been closed has nobody parked in Send or Recv at either end, in every
+    reachable state; and every later Send or Recv fails at once with the closed error -/
+theorem closed_inproc_pipe_parks_nobody (s : InprocPipe.State) (hr : InprocPipe.Reach s) (hc : InprocPipe.anyClosed s = true) :
+    s.parkedSend = [] ∧ s.parkedRecv = [] ∧
+    (∀ d c h b, InprocPipe.step s (.send d c h b) = [(s, InprocPipe.render none [(c, "closed")])]) ∧
+    (∀ d c, InprocPipe.step s (.recv d c) = [(s, InprocPipe.render none [(c, "closed")])]) := by
+  have inv := InprocPipe.reach_inv hr
+  refine ⟨(inv.closedEmpty hc).1, (inv.closedEmpty hc).2, ?_, ?_⟩
+  · intro d c h b
+    simp [InprocPipe.step, hc]
+  · intro d c
+    simp [InprocPipe.step, hc]
 
 end Props.C10
